@@ -16,7 +16,7 @@ enum { U_ALLOC = 1, U_RELEASE, U_SWAP, U_RESET, U_GET,
        S_ALLOC = 10, S_SHARE, S_SWAP, S_RESET, S_GET, S_UNIQUE,
        W_FROM = 20, W_LOCK, W_SWAP, W_RESET,
        G_SET = 30, G_COPY, G_SWAP, G_GET,
-       X_STRAY = 40, X_MANY = 41, X_SELFREF = 42 };
+       X_STRAY = 40, X_MANY = 41, X_SELFREF = 42, X_CHURN = 43 };
 
 static const char *q_opname(int k)
 {
@@ -27,7 +27,7 @@ static const char *q_opname(int k)
     case S_RESET: return "shared_reset"; case S_GET: return "shared_get"; case S_UNIQUE: return "shared_unique";
     case W_FROM: return "weak_from"; case W_LOCK: return "weak_lock"; case W_SWAP: return "weak_swap"; case W_RESET: return "weak_reset";
     case G_SET: return "guarded_set"; case G_COPY: return "guarded_copy"; case G_SWAP: return "guarded_swap"; case G_GET: return "guarded_get";
-    case X_STRAY: return "stray"; case X_MANY: return "many_owners"; case X_SELFREF: return "self_reference";
+    case X_STRAY: return "stray"; case X_MANY: return "many_owners"; case X_SELFREF: return "self_reference"; case X_CHURN: return "churn";
     }
     return "?";
 }
@@ -554,6 +554,37 @@ static void q_once(const plan_t *p)
             break;      /* check_effects below verifies that nothing of it is left allocated */
         }
 
+        case X_CHURN: {
+            /* the n-th repetition: one allocation is shared and let go, referred to weakly, locked and let go again
+             * 254 ... 65 536 times in a row; nothing may be cleared, and the counts must end where they began */
+            static const unsigned reps[] = { 254, 255, 256, 65534, 65535, 65536 };
+            unsigned n = reps[o->a[2] % 6], q; int src = -1, j; static const void *pp; static bool uq;
+            for (j = 0; j < NSP; j++) if (tsp[(j + (int)o->a[1]) % NSP] >= 0) { src = (j + (int)o->a[1]) % NSP; break; }
+            if (src < 0) { EVT("skip", 0, 0, 0); break; }
+            g_cur_ctx = n > 60000 ? "churn-2^16" : "churn-2^8";
+            cstl_shared_ptr_init(&sp[NSP]); cstl_weak_ptr_init(&wp[NWP]);
+            ncbl = 0; nexp_clear = 0;
+            g_inlib = 1;
+            for (q = 0; q < n && ncbl == 0; q++) {
+                cstl_shared_ptr_share(&sp[src], &sp[NSP]);
+                cstl_weak_ptr_from(&wp[NWP], &sp[NSP]);
+                cstl_shared_ptr_reset(&sp[NSP]);
+                cstl_weak_ptr_lock(&wp[NWP], &sp[NSP]);
+                if (cstl_shared_ptr_get(&sp[NSP]) != cstl_shared_ptr_get(&sp[src])) break;
+                cstl_shared_ptr_reset(&sp[NSP]);
+                cstl_weak_ptr_reset(&wp[NWP]);
+            }
+            g_inlib = 0;
+            if (ncbl) VIOL("cleared_early", "the clear callback ran during repetition %u of share/weak/lock/reset cycles although an owner exists throughout", q);
+            if (q != n) VIOL("churn", "repetition %u: a lock through a weak reference did not yield the allocation although an owner exists", q);
+            TRY(pp = cstl_shared_ptr_get(&sp[src]));
+            if (pp != (const void *)ma[tsp[src]].addr) VIOL("get", "after %u cycles the owner no longer yields the address of its allocation", n);
+            TRY(uq = cstl_shared_ptr_unique(&sp[src]));
+            if (uq != (ma[tsp[src]].refs == 1)) VIOL("unique", "after %u share/reset cycles unique() is %d with %d references", n, (int)uq, ma[tsp[src]].refs);
+            PROBE(n > 60000 ? "churn_2^16" : "churn_2^8");
+            EVT("churn", src, n, 0);
+            break;
+        }
         case X_SELFREF: {
             static cstl_shared_ptr_t s1, s2; static const void *pp; unsigned before;
             if (live_allocs() >= maxlive + 1) { EVT("skip", 0, 0, 0); break; }
@@ -774,6 +805,7 @@ static void q_gen(prng_t *r, int mode, plan_t *p)
         if (faults && (kind == U_ALLOC || kind == S_ALLOC) && prng_chance(r, 1, 3)) o->a[4] = 1 + prng_below(r, 2);
     }
     if (mode == 5 && prng_chance(r, 1, 150)) { op_t *o = plan_add(p, X_MANY); o->a[2] = prng_below(r, 8); }
+    if (mode == 5 && prng_chance(r, 1, 40)) { op_t *o = plan_add(p, X_CHURN); o->a[1] = prng_below(r, 4); o->a[2] = prng_below(r, 6); }
     if (mode == 5 && prng_chance(r, 1, 6)) { op_t *o = plan_add(p, X_SELFREF); o->a[2] = prng_below(r, 16); o->a[3] = prng_below(r, 4); }
     if (mode == 20) {
         op_t *o = plan_add(p, X_STRAY);
